@@ -15,6 +15,7 @@ import importlib
 import json
 import multiprocessing
 import os
+import signal
 import sys
 import time
 import traceback
@@ -105,6 +106,17 @@ class Stats:
         self.harness_errors.extend(o.get("harness_errors", []))
 
 
+class CaseTimeout(BaseException):
+    """One case did not finish within the per-case time limit (BaseException: not swallowed by `except Exception`)."""
+
+
+CASE_LIMIT = {"quick": 30, "thorough": 120}
+
+
+def _alarm_handler(signum, frame):
+    raise CaseTimeout()
+
+
 def _derive_seed(seed, shard, rnd):
     h = hashlib.sha256(("%d/%d/%d" % (seed, shard, rnd)).encode()).digest()
     return int.from_bytes(h[:8], "big")
@@ -124,6 +136,8 @@ def run_hypothesis_shard(mod, tier, seed, shard, nshards, examples, known_bucket
     rnd = 0
     strat = mod.strategy(tier)
     shrink_budget = 150 if tier == "quick" else 2000
+    limit = int(os.environ.get("BBV_CASE_LIMIT", CASE_LIMIT.get(tier, 30)))
+    signal.signal(signal.SIGALRM, _alarm_handler)
 
     class Found(Exception):
         pass
@@ -149,7 +163,23 @@ def run_hypothesis_shard(mod, tier, seed, shard, nshards, examples, known_bucket
                     # the smallest failing case seen so far becomes the replay
                     raise _Stop()
             try:
-                out = mod.check(case)
+                signal.alarm(limit)
+                try:
+                    out = mod.check(case)
+                finally:
+                    signal.alarm(0)
+            except CaseTimeout:
+                # inconclusive for this case: counted, the search goes on (reported as a harness error unless a violation is found)
+                key = "timeout(>%ds)" % limit
+                res["discards"][key] = res["discards"].get(key, 0) + 1
+                if "timeout_case" not in res["notes"]:
+                    try:
+                        res["notes"]["timeout_case"] = json.dumps(mod.dump_case(case), default=str)[:4000]
+                    except Exception:
+                        res["notes"]["timeout_case"] = "?"
+                if hasattr(mod, "after_timeout"):
+                    mod.after_timeout()
+                return
             except HarnessError:
                 raise
             except RecursionError:
@@ -353,9 +383,13 @@ def run_property(pid, tier, seed):
     elif nshards == 1:
         results = [_shard_entry(jobs[0])]
     else:
+        import concurrent.futures as cf
         ctx = multiprocessing.get_context("fork")
-        with ctx.Pool(min(nshards, os.cpu_count() or 1)) as pool:
-            results = pool.map(_shard_entry, jobs, chunksize=1)
+        try:
+            with cf.ProcessPoolExecutor(min(nshards, os.cpu_count() or 1), mp_context=ctx) as pool:
+                results = list(pool.map(_shard_entry, jobs, chunksize=1))
+        except cf.process.BrokenProcessPool as e:
+            raise HarnessError("a shard process died (killed or crashed): %s" % e)
     for r in results:
         if "fatal" in r:
             raise HarnessError(r["fatal"])
@@ -370,6 +404,10 @@ def run_property(pid, tier, seed):
         stats.evaluations += ev.get("evaluations", 0)
     if stats.harness_errors:
         raise HarnessError("; ".join(stats.harness_errors[:3]))
+    timeouts = sum(v for k, v in stats.discards.items() if k.startswith("timeout("))
+    if timeouts and not stats.buckets:
+        raise HarnessError("inconclusive: %d case(s) did not finish within the per-case time limit and no violation was found; "
+                           "first such case: %s" % (timeouts, str(stats.notes.get("timeout_case"))[:1500]))
     # replay files and verdict
     os.makedirs(os.path.join(OUT, "replays"), exist_ok=True)
     violations = 0
